@@ -67,6 +67,10 @@ func main() {
 		}
 	case "check":
 		os.Exit(checkMain(os.Args[2:]))
+	case "race":
+		os.Exit(raceMain(os.Args[2:]))
+	case "raceworker":
+		raceWorker(os.Args[2:])
 	}
 }
 
